@@ -29,6 +29,7 @@
 -/
 import Rtp.Proofs.PipelineCodecs
 import Rtp.Proofs.PipelineVP9
+import Rtp.Proofs.PipelineAV1
 import Rtp.Props.C10
 namespace Rtp.Props.Pipeline
 open Rtp Rtp.Model Rtp.Model.Pipeline Rtp.Pred.Pipeline Rtp.Proofs.Pipeline
@@ -192,6 +193,42 @@ theorem vp9_proper_of_mtu (flex : Bool) (fr : VP9Frame) (B : UInt16)
     · simp only [VP9Frame.call]; exact decide_eq_true (by split <;> omega)
     · rename_i hn; rw [hn] at h2; cases h2
 
+/-! ### AV1 (C06 ∘ C01 ∘ C08 ∘ C13 ∘ C15) -/
+
+/-- **pipeline_av1_history.**  The AV1Payloader inside a packetizer in any state, ONE
+    AV1Depacketizer in ANY state (any buffered fragment, any flags), any list of temporal units each
+    the serialisation of ≥ 1 well-formed OBUs (C13: header fields in range, every OBU but the last
+    carries its size, sizes < 2^56), an MTU that leaves the payloader 2 bytes (C13's bound):
+    the trains are well formed (a temporal unit made only of temporal delimiters / tile lists
+    sends no packet) and every temporal unit is handed back in AV1Depacketizer's normal form
+    (`AV1Frame.expected`): the same OBUs in order, temporal delimiters and tile lists removed,
+    every OBU with its size field. -/
+theorem pipeline_av1_history (pk : Packetizer) (hcfg : cfgOk pk = true) (hm : overhead pk + 2 ≤ pk.mtu.toNat)
+    (d : AV1.DSt) (frames : List AV1Frame) (hw : ∀ fr ∈ frames, fr.wf = true) :
+    histOkE pk (frames.map AV1Frame.frameIn) (frames.map AV1Frame.expected)
+      (run av1Pay av1Depack { pk := pk, st := () } d (frames.map AV1Frame.frameIn)) = true := by
+  have hb := budget_toNat pk (by omega : overhead pk ≤ pk.mtu.toNat)
+  have hB : 2 ≤ pk.budget.toNat := by omega
+  have h := run_okE av1Pay av1Depack av1Inv (av1Exp pk.budget) { pk := pk, st := () } d
+    (frames.map AV1Frame.frameIn) hcfg (by show overhead pk ≤ pk.mtu.toNat; omega)
+    (av1_fits _) (av1_dep _ hB) (av1_payOk _ frames hw)
+  rwa [av1_expected pk.budget hB frames hw] at h
+
+/-- **pipeline_av1.**  One temporal unit. -/
+theorem pipeline_av1 (pk : Packetizer) (hcfg : cfgOk pk = true) (hm : overhead pk + 2 ≤ pk.mtu.toNat)
+    (d : AV1.DSt) (fr : AV1Frame) (hw : fr.wf = true) :
+    let o := (round av1Pay av1Depack { pk := pk, st := () } d fr.frameIn).1
+    trainOk pk (pk.seq.seq + 1) pk.ts o = true ∧ o.reasm = fr.expected := by
+  have hb := budget_toNat pk (by omega : overhead pk ≤ pk.mtu.toNat)
+  have hB : 2 ≤ pk.budget.toNat := by omega
+  have hw' := hw
+  simp only [AV1Frame.wf, Bool.and_eq_true, Bool.not_eq_true', List.isEmpty_eq_false_iff] at hw'
+  have h := round_okE av1Pay av1Depack av1Inv (av1Exp pk.budget) { pk := pk, st := () } d fr.frameIn hcfg
+    (by show overhead pk ≤ pk.mtu.toNat; omega) (av1_fits _) (av1_dep _ hB) ⟨fr.obus, hw'.1, hw'.2, rfl⟩
+  refine ⟨h.1, ?_⟩
+  rw [h.2]
+  exact av1Exp_serialise pk.budget hB fr.obus hw'.2
+
 /-! ### H264 (C06 ∘ C01 ∘ C08 ∘ C10) -/
 
 private theorem h264_calls_nals (B : UInt16) (frames : List H264Frame) :
@@ -316,6 +353,12 @@ theorem pipeline_vp9_pred (st : VP9Pay) (pk : Packetizer) (r : VP9Packet) (frame
   simp only [wfVP9, Bool.and_eq_true, decide_eq_true_eq] at h
   exact pipeline_vp9_history st h.1.1.1 pk h.1.1.2 h.1.2 r frames (fun fr hfr => (List.all_eq_true.mp h.2) fr hfr)
 
+theorem pipeline_av1_pred (pk : Packetizer) (d : AV1.DSt) (frames : List AV1Frame) (h : wfAV1 pk frames = true) :
+    histOkE pk (frames.map AV1Frame.frameIn) (frames.map AV1Frame.expected)
+      (runAV1 pk d (frames.map AV1Frame.frameIn)) = true := by
+  simp only [wfAV1, Bool.and_eq_true, decide_eq_true_eq] at h
+  exact pipeline_av1_history pk h.1.1 h.1.2 d frames (fun fr hfr => (List.all_eq_true.mp h.2) fr hfr)
+
 theorem pipeline_h264_pred (disable avc : Bool) (pk : Packetizer) (buf : Bytes) (frames : List H264Frame)
     (h : wfH264 pk frames = true) :
     histOkWhole pk (frames.map H264Frame.frameIn) (h264Expected disable avc frames)
@@ -378,6 +421,22 @@ example : wfVP9 { flexible := false, init := 7 } { exCfg with mtu := 24 } exVp9F
 example : histOk { exCfg with mtu := 24 } (exVp9Frames.map VP9Frame.frameIn)
     (runVP9 { flexible := false, init := 7 } { exCfg with mtu := 24 } {} (exVp9Frames.map VP9Frame.frameIn)) = true :=
   pipeline_vp9_pred _ _ {} _ (by decide +kernel)
+
+/-- AV1 at MTU 20 (budget 8): temporal delimiter, sequence header (2 payload bytes), a frame OBU of
+    9 payload bytes WITHOUT size field (last OBU) — the delimiter is dropped, the frame OBU is
+    fragmented, and the receiver hands both OBUs back with size fields -/
+def exAv1 : List AV1Frame :=
+  [{ obus := [{ hdr := { type := 2, ext := none, hasSize := true, reserved1 := false }, payload := [] },
+              { hdr := { type := 1, ext := none, hasSize := true, reserved1 := false }, payload := [0xAA, 0xBB] },
+              { hdr := { type := 6, ext := none, hasSize := false, reserved1 := false }, payload := [1, 2, 3, 4, 5, 6, 7, 8, 9] }], samples := 3000 }]
+example : wfAV1 exCfg exAv1 = true := by decide +kernel
+example : (exAv1.map AV1Frame.frameIn).map (·.frame) =
+    [[0x12, 0x00, 0x0A, 0x02, 0xAA, 0xBB, 0x30, 1, 2, 3, 4, 5, 6, 7, 8, 9]] := by decide +kernel
+example : exAv1.map AV1Frame.expected =
+    [[0x0A, 0x02, 0xAA, 0xBB, 0x32, 0x09, 1, 2, 3, 4, 5, 6, 7, 8, 9]] := by decide +kernel
+example : histOkE exCfg (exAv1.map AV1Frame.frameIn) (exAv1.map AV1Frame.expected)
+    (runAV1 exCfg { buffer := [0x30, 0xEE], z := false, y := true, n := false } (exAv1.map AV1Frame.frameIn)) = true :=
+  pipeline_av1_pred _ _ _ (by decide +kernel)
 
 /-- H264 at MTU 20 (budget 8): SPS and PPS alone in the first frame (held back: no packet), then
     AUD + IDR of 9 bytes — the STAP-A (5+3+2 > 8) does not fit, so SPS, PPS leave on their own and
